@@ -230,8 +230,22 @@ def r2(ctx):
     for cname, meth in (("IfNode", "evaluate_for_platform"), ("IncludeNode", "evaluate_for_platform")):
         f = repo.cls("preprocessor", cname).find_method(meth)
         made = [c for c in f.calls() if callee(c) == "MacroExpander"]
-        ok = len(made) >= 1 and all(u(c.args[0]) == "kwargs['platform']" for c in made)
-        stored = [s for s in walk_no_nested(f.node) if isinstance(s, ast.Assign) and isinstance(s.targets[0], ast.Attribute) and u(s.targets[0].value) == "self"]
+        def _platform_arg(c):
+            if not c.args:
+                return False
+            a = c.args[0]
+            if u(a) == "kwargs['platform']":
+                return True
+            for fn in [f] + f.new_helpers():
+                if any(x is c for x in ast.walk(fn.node)):
+                    if isinstance(a, ast.Name) and a.id in fn.params and fn is not f:
+                        return True  # handed down as a parameter of an extracted helper
+                    if isinstance(a, ast.Name):
+                        return any(isinstance(s_, ast.Assign) and u(s_.targets[0]) == a.id and u(s_.value) == "kwargs['platform']" for s_ in ast.walk(fn.node))
+            return False
+
+        ok = len(made) >= 1 and all(_platform_arg(c) for c in made)
+        stored = [s for fn in [f] + f.new_helpers() for s in walk_no_nested(fn.node) if isinstance(s, ast.Assign) and isinstance(s.targets[0], ast.Attribute) and u(s.targets[0].value) == "self"]
         ctx.check(ok and not stored, f"{f.key}:fresh-expander", "the MacroExpander must be created for the visiting platform at every evaluation and not kept on the (shared) node", f.loc())
     ctx.floor(6 + 1 + 2)
 
@@ -427,21 +441,63 @@ def r5(ctx):
         ctx.soft(False, "__main__:_main/tree:_tree:loading-blocks-equal", f"one of the two front ends was re-written since it was reviewed; their loading code could not be shown equal: {why[:200]}", t.loc(bt))
         same = True
     ctx.check(same, "__main__:_main/tree:_tree:loading-blocks-equal", f"the analysis-file loading code of codebasin and cbi-tree differ: the two front ends would analyse different configurations: {why}", t.loc(bt))
-    for f, b in ((m, bm), (t, bt)):
-        loops = [x for x in ast.walk(b) if isinstance(x, ast.For) and "analysis_toml['platform']" in u(x.iter) and any(isinstance(y, ast.Call) and callee(y) == "config.load_database" for y in ast.walk(x))]
+    # platform selection, on the decision table of each front end's loading block: a platform of the analysis file is
+    # loaded iff no -p was given or -p names it; it is loaded from its own `commands` and the root, and stored under its
+    # own name
+    from .. import review as _rv
+    from ..spec import vt as _vt
+
+    for f, blk in ((m, bm), (t, bt)):
         key = f"{f.key}:platform-selection"
-        if len(loops) != 1:
-            ctx.violation(key, "platform loading loop not found", f.loc(b))
-            continue
-        lp = loops[0]
-        name = u(lp.target)
-        first = lp.body[0]
-        ok = isinstance(first, ast.If) and u(first.test) == f"cmd_platforms and {name} not in cmd_platforms" and isinstance(first.body[0], ast.Continue)
-        upd = [x for x in ast.walk(lp) if isinstance(x, ast.Call) and u(x.func) == "configuration.update"]
-        ok = ok and len(upd) == 1 and u(upd[0].args[0]) == "{" + name + ": db}"
-        ld = [x for x in ast.walk(lp) if isinstance(x, ast.Call) and callee(x) == "config.load_database"]
-        ok = ok and len(ld) == 1 and [u(a) for a in ld[0].args] == ["p", "rootdir"]
-        ctx.check(ok, key, "a platform must be skipped iff -p was given and does not name it; its database is loaded on its own (database path, root) and stored under its own name", f.loc(lp))
+        tbl = _rv.block_table([blk], fi=f)
+        n_sel = n_skip = 0
+        for p in tbl:
+            at = {_vt(k): v for k, v in p.atoms.items()}
+            its = [mm.group(1) for k, v in p.atoms.items() for mm in [re.match(r"more\((.+\['platform'\]\.items\(\))#L\d+,0\)$", _vt(k))] if mm and v]
+            if not its:
+                continue
+            N, D = f"{its[0]}[0][0]", f"{its[0]}[0][1]"
+            given = next((v for k, v in at.items() if re.fullmatch(r"args\.platforms(\.copy\(\))?", k)), None)
+            named = next((v for k, v in at.items() if re.fullmatch(re.escape(N) + r" In args\.platforms(\.copy\(\))?", k)), None)
+            loads = [(_vt(e[1]), _vt(e[2])) for e in p.effects if e[0] == "store" and "config.load_database(" in _vt(e[2])]
+            loads += [("<call>", _vt(e[1])) for e in p.effects if e[0] == "call" and str(e[1]) == "config.load_database"]
+            if given is None:
+                raise AnalysisError(f"{f.key}: the test whether -p was given is not recognised: {p.describe()[-200:]}")
+            selected = (not given) or bool(named)
+            if given and named is None:
+                ctx.violation(key, "with -p given, a platform of the analysis file is processed without asking whether -p names it", f.loc(blk))
+                continue
+            if p.result[0] == "raise":
+                continue
+            if selected:
+                n_sel += 1
+                ok = len(loads) == 1 and loads[0][0].endswith(f"[{N}]") and loads[0][1] == f"config.load_database({D}['commands'], rootdir)"
+                ctx.check(ok, key, f"a selected platform must be loaded on its own (its `commands` database, the root) and stored under its own name: {loads}", f.loc(blk))
+            else:
+                n_skip += 1
+                ctx.check(not loads, key, f"a platform that -p does not name is loaded all the same: {loads}", f.loc(blk))
+        if not (n_sel and n_skip):
+            raise AnalysisError(f"{f.key}: platform selection idiom not recognised (selected {n_sel}, skipped {n_skip})")
+        # skipping one platform must not end the walk over the others (two platforms unrolled)
+        try:
+            tbl2 = _rv.block_table([blk], unroll=2, max_paths=6000, fi=f)
+        except AnalysisError:
+            tbl2 = None
+        if tbl2 is not None:
+            seen_skip = goes_on = 0
+            for p in tbl2:
+                at = {_vt(k): v for k, v in p.atoms.items()}
+                its = [mm.group(1) for k, v in p.atoms.items() for mm in [re.match(r"more\((.+\['platform'\]\.items\(\))#L\d+,0\)$", _vt(k))] if mm and v]
+                if not its or p.result[0] == "raise":
+                    continue
+                N = f"{its[0]}[0][0]"
+                given = next((v for k, v in at.items() if re.fullmatch(r"args\.platforms(\.copy\(\))?", k)), None)
+                named = next((v for k, v in at.items() if re.fullmatch(re.escape(N) + r" In args\.platforms(\.copy\(\))?", k)), None)
+                if given and named is False:
+                    seen_skip += 1
+                    goes_on += any(re.match(r"more\(" + re.escape(its[0]) + r"#L\d+,1\)$", _vt(k)) for k in p.atoms)
+            if seen_skip:
+                ctx.check(goes_on == seen_skip, key + ":skip-continues", "after a platform that -p does not name, the remaining platforms of the analysis file must still be examined (the skip ends the walk instead: which platforms are loaded depends on their order in the file)", f.loc(blk))
     ctx.floor(3)
 
 
